@@ -125,7 +125,8 @@ def run_tree(rec, tier, seed, ti, spec, other):
                    ("hashseed-random", dict(hashseed="random")),
                    ("walk-shuffle-a", dict(walk_seed=11 + ti)), ("walk-shuffle-b", dict(walk_seed=977 + ti, hashseed="5")),
                    ("same-instance-twice", dict(mode="twice-same-instance")), ("new-instance-twice", dict(mode="twice-new-instance")),
-                   ("after-failed-run", dict(mode="failed-then-good"))]
+                   ("after-failed-run", dict(mode="failed-then-good")),
+                   ("relative-roots", dict(mode="relative-roots")), ("dot-root", dict(mode="dot-root")), ("unnormalised-roots", dict(mode="unnormalised-roots"))]
         if have_moved:
             configs.append(("other-tree-first", dict(mode="other-tree-first")))
         if ti < 0:
